@@ -71,6 +71,30 @@ func MultiFilePackage(pkg, goName string) (types, service, unrelated *spec.File)
 	return
 }
 
+// SameRouteServices: two services that each expose the same verb and path (a health probe, an item route),
+// each meant for a mux of its own: in one file, or in two files of different proto and Go packages
+// generated by one invocation. Routes are per service; nothing about one service limits another.
+func SameRouteServices(pkg, goName string, twoPackages bool) []*spec.File {
+	mk := func(p, g, svc, rpcSuffix string) *spec.File {
+		f := &spec.File{Path: "same/" + g + "/api.proto", Package: p, GoImport: "lab/gen/" + g, GoName: g}
+		in := func(m string) string { return "." + p + "." + m }
+		f.Messages = []*spec.Message{{Name: "Ping" + rpcSuffix, Fields: []*spec.Field{spec.F("probe", 1, spec.String).Q("probe")}}, {Name: "Pong" + rpcSuffix, Fields: []*spec.Field{spec.F("ok", 1, spec.Bool)}},
+			{Name: "Item" + rpcSuffix, Fields: []*spec.Field{spec.F("id", 1, spec.String), spec.F("title", 2, spec.String)}}}
+		f.Services = []*spec.Service{{Name: svc, BasePath: spec.S("/api"), Methods: []*spec.Method{
+			{Name: "Health" + rpcSuffix, In: in("Ping" + rpcSuffix), Out: in("Pong" + rpcSuffix), HTTP: &spec.HTTP{Path: "/healthz", Verb: 1}},
+			{Name: "PutItem" + rpcSuffix, In: in("Item" + rpcSuffix), Out: in("Item" + rpcSuffix), HTTP: &spec.HTTP{Path: "/items/{id}", Verb: 3}}}}}
+		return f
+	}
+	if twoPackages {
+		return []*spec.File{mk(pkg+".shop", goName+"shop", "ShopService", ""), mk(pkg+".admin", goName+"admin", "AdminService", "")}
+	}
+	a := mk(pkg, goName, "ShopService", "A")
+	b := mk(pkg, goName, "AdminService", "B")
+	a.Messages = append(a.Messages, b.Messages...)
+	a.Services = append(a.Services, b.Services...)
+	return []*spec.File{a}
+}
+
 // SiblingFiles: three files of one proto package and one Go package, all generated in one invocation: a
 // service file, the models file it imports, and an audit file that nothing imports. Every message
 // carries field examples, rules and JSON-mapping annotations, so whatever a generator collects per
